@@ -191,7 +191,15 @@ def rule_t4(report, prog):
     binds = [norm(st.value) for st in walk_no_nested(ub.node) if isinstance(st, (ast.Assign, ast.AugAssign)) and
              any(isinstance(x, ast.Name) and x.id == 'max_data' for x in ast.walk(st.targets[0] if isinstance(st, ast.Assign) else st.target))]
     cond = [norm(i.test) for i in walk_no_nested(f.node) if isinstance(i, ast.If) and 'self._max_lc' in norm(i.test)]
-    okk = binds == ['min(self._max_lc, len(data))'] and cond == ['len(nlen) + len(data) <= self._max_lc']
+    # further clamps by a constant that is not below the largest MLc _discover_ndef can store (255, short APDUs only) change nothing
+    extra = binds[1:]
+    harmless = all((match(ast.parse(b, mode='eval').body, 'min(max_data, $K)') or {}).get('K') is not None and
+                   isinstance(try_const(match(ast.parse(b, mode='eval').body, 'min(max_data, $K)')['K']), int) and
+                   try_const(match(ast.parse(b, mode='eval').body, 'min(max_data, $K)')['K']) >= 255 for b in extra)
+    dn = prog.func('nfc.tag.tt4.Type4Tag.NDEF._discover_ndef')
+    lc = [norm(st.value) for st in walk_no_nested(dn.node) if isinstance(st, ast.Assign) and norm(st.targets[0]) == 'self._max_lc']
+    lc_short = bool(lc) and all(v in ('1', 'min(mlc, 255)', 'min(255, mlc)') for v in lc)
+    okk = binds[:1] == ['min(self._max_lc, len(data))'] and (not extra or (harmless and lc_short)) and cond == ['len(nlen) + len(data) <= self._max_lc']
     report.check(okk, 'C02-R5', key(ub.qname, 'chunk limit of UPDATE BINARY is the MLc the single-command branch tests'), ub.loc(),
                  'the writer decides "one command" by %s but _update_binary limits a chunk by %s: a write taken for atomic is split, the first '
                  'command already carries the final NLEN' % (cond, binds))
